@@ -277,7 +277,7 @@ def conv_strategy(stratum, tier):
     return st.fixed_dictionaries(
         dict(
             D=st.just(stratum["D"]),
-            N=st.integers(3, 200),
+            N=st.one_of(st.integers(3, 200), st.integers(3, 200), st.sampled_from([1024, 1449, 2048, 6209, 7000, 55109, 60000, 10**6])),  # the formulas are plain arithmetic: any grid size
             L=gens.log_floats(0.05, 200.0),
             dt=gens.log_floats(1e-5, 100.0),
             M=gens.log_floats(0.01, 100.0),
@@ -311,6 +311,15 @@ def conv_check(case):
 
     alpha = [x * dt / L**j for j, x in enumerate(a)]
     close("normalize_coefficients", G.normalize_coefficients(tuple(a), domain_extent=L, dt=dt), alpha)
+    # other sequence types: list and NumPy array (the caller's array must not be modified, a second call gives the same)
+    a_np = np.array(a, dtype=float)
+    out_np = G.normalize_coefficients(a_np, domain_extent=L, dt=dt)
+    close("normalize_coefficients:ndarray_input", tuple(float(x) for x in out_np), alpha)
+    res.claim("normalize_coefficients:input_array_untouched", float(np.max(np.abs(a_np - np.array(a, dtype=float)))), 0.0, key=key + ":normalize_coefficients:input_mutated")
+    close("normalize_coefficients:list_input", tuple(float(x) for x in G.normalize_coefficients(list(a), domain_extent=L, dt=dt)), alpha)
+    al_np = np.array(alpha, dtype=float)
+    close("denormalize_coefficients:ndarray_input", tuple(float(x) for x in G.denormalize_coefficients(al_np, domain_extent=L, dt=dt)), a)
+    res.claim("denormalize_coefficients:input_array_untouched", float(np.max(np.abs(al_np - np.array(alpha, dtype=float)))), 0.0, key=key + ":denormalize_coefficients:input_mutated")
     close("denormalize_coefficients", G.denormalize_coefficients(tuple(alpha), domain_extent=L, dt=dt), a)
     res.true("normalize_coefficients:returns_tuple", isinstance(G.normalize_coefficients(tuple(a), domain_extent=L, dt=dt), tuple))
     gamma = [x if j == 0 else x * N**j * 2.0 ** (j - 1) * D for j, x in enumerate(alpha)]
